@@ -445,6 +445,33 @@ func init() {
 		"(*bufio.Reader).Buffered": func(in *Interp, fn *ssa.Function, a []Value) Value {
 			return IntV{in.p.lenOf(in.bufReaderOf(a[0]).buffered)}
 		},
+		"(*bufio.Reader).Size": func(in *Interp, fn *ssa.Function, a []Value) Value {
+			return IntV{in.bufReaderOf(a[0]).size}
+		},
+		"(*bufio.Reader).Peek": func(in *Interp, fn *ssa.Function, a []Value) Value {
+			return in.bufReaderOf(a[0]).peek(in, in.p.resLin(in.asLin(a[1])))
+		},
+		"(*bufio.Reader).Discard": func(in *Interp, fn *ssa.Function, a []Value) Value {
+			return in.bufReaderOf(a[0]).discard(in, in.p.resLin(in.asLin(a[1])))
+		},
+		"(*bufio.Reader).ReadString": func(in *Interp, fn *ssa.Function, a []Value) Value {
+			r := in.bufReaderOf(a[0])
+			d := in.p.resLin(in.asLin(a[1]))
+			if !d.isConst() {
+				in.unsupported("ReadString with symbolic delimiter")
+			}
+			data, err := r.readUntil(in, byte(d.c))
+			return TupleV{StrV{data}, err}
+		},
+		"(*bufio.Reader).ReadBytes": func(in *Interp, fn *ssa.Function, a []Value) Value {
+			r := in.bufReaderOf(a[0])
+			d := in.p.resLin(in.asLin(a[1]))
+			if !d.isConst() {
+				in.unsupported("ReadBytes with symbolic delimiter")
+			}
+			data, err := r.readUntil(in, byte(d.c))
+			return TupleV{BytesV{o: in.newByteObj(data), off: linC(0), n: in.p.lenOf(data)}, err}
+		},
 		"io.LimitReader": func(in *Interp, fn *ssa.Function, a []Value) Value {
 			t := fn.Signature.Results().At(0).Type() // io.Reader
 			_ = t
@@ -1253,6 +1280,91 @@ func (r *BufReader) readByte(in *Interp) Value {
 		if r.err != nil {
 			r.lastByte = nil
 			return TupleV{mkInt(0), r.takeErr()}
+		}
+		r.fill(in)
+	}
+}
+
+// peek returns the next n bytes without consuming them (a view, like every slice of the reader).
+func (r *BufReader) peek(in *Interp, n Lin) Value {
+	r.gen++
+	r.lastByte = nil
+	if in.p.branch("peek-neg", bLin(n, LT0)) {
+		return TupleV{BytesV{}, in.mkErrS("bufio: negative count")}
+	}
+	for k := 0; ; k++ {
+		if k > in.eng.cfg.unwind {
+			in.p.abort("unwind", "bufio fill loop exceeded the bound")
+		}
+		r.buffered = in.p.res(r.buffered)
+		blen := in.p.lenOf(r.buffered)
+		if in.p.branch("peek-enough", bLin(n.sub(blen), LE0)) {
+			data, _ := in.p.locate(r.buffered, n)
+			return TupleV{r.view(in, data), IfaceV{}}
+		}
+		if in.p.branch("peek-full", bLin(r.size.sub(blen), LE0)) {
+			return TupleV{r.view(in, r.buffered), in.load(in.global(in.eng.bufioErrBufferFull))}
+		}
+		if r.err != nil {
+			return TupleV{r.view(in, r.buffered), r.takeErr()}
+		}
+		r.fill(in)
+	}
+}
+
+// discard skips the next n bytes.
+func (r *BufReader) discard(in *Interp, n Lin) Value {
+	r.gen++
+	r.lastByte = nil
+	if in.p.branch("discard-neg", bLin(n, LT0)) {
+		return TupleV{mkInt(0), in.mkErrS("bufio: negative count")}
+	}
+	done := linC(0)
+	for k := 0; ; k++ {
+		if k > in.eng.cfg.unwind {
+			in.p.abort("unwind", "bufio fill loop exceeded the bound")
+		}
+		rest := in.p.resLin(n.sub(done))
+		if in.p.branch("discard-done", bLin(rest, LE0)) {
+			return TupleV{IntV{n}, IfaceV{}}
+		}
+		r.buffered = in.p.res(r.buffered)
+		blen := in.p.lenOf(r.buffered)
+		if !in.p.branch("discard-empty", bLin(blen, EQ0)) {
+			take := rest
+			if in.p.branch("discard-all", bLin(blen.sub(rest), LE0)) {
+				take = blen
+			}
+			_, after := in.p.locate(r.buffered, take)
+			r.buffered = in.p.res(after)
+			done = in.p.resLin(done.add(take))
+			continue
+		}
+		if r.err != nil {
+			return TupleV{IntV{done}, r.takeErr()}
+		}
+		r.fill(in)
+	}
+}
+
+// readUntil reads up to and including the delimiter (ReadString / ReadBytes: a copy, no size limit).
+func (r *BufReader) readUntil(in *Interp, delim byte) (NF, Value) {
+	r.gen++
+	r.lastByte = nil
+	var acc NF = NF{}
+	for k := 0; ; k++ {
+		if k > in.eng.cfg.unwind {
+			in.p.abort("unwind", "bufio fill loop exceeded the bound")
+		}
+		before, w, after, found := in.p.splitFirst(r.buffered, setOf(delim))
+		if found {
+			r.buffered = after
+			return nfCat(acc, before, w.nf()), IfaceV{}
+		}
+		acc = nfCat(acc, in.p.res(before))
+		r.buffered = NF{}
+		if r.err != nil {
+			return acc, r.takeErr()
 		}
 		r.fill(in)
 	}
